@@ -101,6 +101,8 @@ def own_corpus():
     for name, enc, text, ctx, exp in NON_UTF8:
         out.append({"id": "OWN:enc-" + name, "files": {"m.html": text}, "main": "m.html", "ctx": ctx, "expected": exp, "template_kwargs": {}, "env": None, "encoding": enc})
         # the same with options that add lines to the head of the generated module
+        # the same under a conflicting input_encoding option (the template's own declaration decides)
+        out.append({"id": "OWN:enc-conflict-" + name, "files": {"m.html": text}, "main": "m.html", "ctx": ctx, "expected": exp, "template_kwargs": {"input_encoding": "utf-8" if enc != "utf-8" else "latin-1"}, "env": None, "encoding": enc})
         out.append({"id": "OWN:enc-future-" + name, "files": {"m.html": text}, "main": "m.html", "ctx": ctx, "expected": exp, "template_kwargs": {"future_imports": ["annotations"], "imports": ["import os"]}, "env": None, "encoding": enc})
     for entry in OWN:
         name, files, ctx, exp = entry[:4]
